@@ -22,7 +22,7 @@ from pathlib import Path
 import numpy as np
 
 import drvlib as D
-from incomplete_cooperative.run.save import Output, save_json
+from incomplete_cooperative.run.save import Output, save, save_json
 
 
 class Proxy:
@@ -149,10 +149,10 @@ class Injector:
         shutil.os = os
 
 
-def make_output(rng, rows, cols, tag):
+def make_output(rng, rows, cols, tag, nan_ok=True):
     data = np.array([[rng.random() * 10 for _ in range(cols)] for _ in range(rows + 1)])
     actions = np.array([[float(rng.randrange(3, 30)) for _ in range(cols)] for _ in range(rows)])
-    if rng.random() < 0.5:
+    if nan_ok and rng.random() < 0.5:      # (the plot savers of save() cannot draw a run without any revealed coalition)
         actions[-1, -1] = np.nan
     return Output(data, actions, Namespace(func=print, tag=tag, seed=rng.randrange(1000), model_dir=Path("/somewhere")))
 
@@ -172,7 +172,7 @@ def classify(path: Path, old_bytes, expected_new: dict, old_names: list[str]):
     return {"cls": "new" if same else "other", "parses": 1, "preserved": preserved}
 
 
-def run_child(root: Path, kill_at: int, kind: str, name: str, out: Output, logfile: Path | None):
+def run_child(root: Path, kill_at: int, kind: str, name: str, out: Output, logfile: Path | None, via_save: bool = False):
     pid = os.fork()
     if pid == 0:
         code = 0
@@ -180,7 +180,10 @@ def run_child(root: Path, kill_at: int, kind: str, name: str, out: Output, logfi
             inj = Injector(root, kill_at, kind)
             inj.install()
             try:
-                save_json(root / "data.json", name, out)
+                if via_save:
+                    save(root, name, out)              # the public entry point: directory, plots, data.json, coalition charts
+                else:
+                    save_json(root / "data.json", name, out)
             except KeyboardInterrupt:
                 code = 3
             except Exception:  # noqa: BLE001
@@ -222,7 +225,7 @@ def main():
                 old_bytes = (root / "data.json").read_bytes() if h > 0 else None
                 new_name = old_names[0] if repeat else "newrun"
                 out = make_output(rng, rows, cols, new_name)
-                follow_out = make_output(rng, 1, 1, "followup")
+                follow_out = make_output(rng, 1, 1, "followup", nan_ok=False)
                 # expected content after a complete save (computed on a scratch copy by the real code, uninterrupted)
                 scratch = base / "scratch"
                 shutil.rmtree(scratch, ignore_errors=True)
@@ -238,7 +241,9 @@ def main():
                 for kind in ("die", "raise"):
                     for k in range(1, nops + 2):
                         for p in root.iterdir():
-                            if p.name != "data.json":
+                            if p.is_dir():
+                                shutil.rmtree(p, ignore_errors=True)
+                            elif p.name != "data.json":
                                 p.unlink()
                         if old_bytes is None:
                             (root / "data.json").unlink(missing_ok=True)
@@ -250,9 +255,14 @@ def main():
                         ev.update(classify(root / "data.json", old_bytes, expected_new, old_names))
                         ev.update({"follow": -1, "follow_parses": -1, "follow_preserved": -1})
                         # a normal, smaller save AFTER the interrupted one (whatever the interrupted one left behind stays in place)
-                        if ev["cls"] in ("old", "new") and (nops <= 60 or k % 5 == 1 or k >= nops - 3):
+                        # through the public save() -- which may look at what an interrupted save left behind -- whenever a leftover
+                        # file ends like a complete document, and for a sample of the other points (seed C20-f)
+                        left = [p for p in root.iterdir() if p.is_file() and p.name != "data.json"]
+                        looks_done = any(p.read_bytes().rstrip()[-1:] in (b"}", b"]") for p in left)
+                        if ev["cls"] in ("old", "new") and (nops <= 60 or k % 5 == 1 or k >= nops - 3 or looks_done):
                             before = json.loads((root / "data.json").read_text()) if (root / "data.json").exists() else {}
-                            rc2 = run_child(root, -1, "none", "followup", follow_out, None)
+                            via = looks_done or k % 9 == 4
+                            rc2 = run_child(root, -1, "none", "followup", follow_out, None, via_save=via)
                             try:
                                 got = json.loads((root / "data.json").read_text())
                                 ev["follow_parses"] = 1
